@@ -21,6 +21,12 @@
  *           (b) with the caller's max_data_bytes for the two packets at the switch just below what compute_redundancy_bytes()
  *           needs, so the same switch comes WITHOUT redundancy; plus the switch right after a DTX period and right after a lost
  *           packet (len 0 -> decode(NULL); PCM of those streams is advisory, PLC being non-normative).
+ *   ROUND   the decoder's paths depend on flags the ENCODER chooses by complexity and rate control (intra / inter band energies,
+ *           transient, tf_select, spread, dual / intensity stereo, anti-collapse, post-filter, skip) and on history kept across a band-range
+ *           change: down-and-up round trips A->B->A over all ordered pairs of the 12 CELT-only / hybrid (mode,bandwidth,channels)
+ *           triples, with the frozen encoder at complexity 0 / 3 (and CBR at a tight rate), on stereo signals whose right channel
+ *           differs strongly from the left (right = loud high-pass noise; right = -left). TRANS is also run with those encoder
+ *           profiles / signals (field ridx = profile: 1 complexity 0, 2 complexity 3, 3 complexity 0 + CBR at the low rate).
  *   LEVEL   what the decoder resets or keeps across a switch (silk_decoder_set_fs: LastGainIndex, lagPrev, prevSignalType, outBuf,
  *           sLPC state, first_frame_after_reset; opus_decode_frame: prev_mode, redundancy; CELT: oldBandE, post-filter, de-emphasis
  *           memory) only shows when the SIGNAL changes across the switch. Every transition kind - the 306 TRANS pairs (20 ms), the
@@ -35,13 +41,13 @@
 #define C03_STREAMS_H
 #include "corpus.h"
 
-enum { FAM_CFG=0, FAM_TRANS, FAM_REFRAME, FAM_FEAT, FAM_SWITCH, FAM_LEVEL, FAM_N };
-static const char *const fam_name[FAM_N]={"cfg","trans","reframe","feat","switch","level"};
+enum { FAM_CFG=0, FAM_TRANS, FAM_REFRAME, FAM_FEAT, FAM_SWITCH, FAM_LEVEL, FAM_ROUND, FAM_N };
+static const char *const fam_name[FAM_N]={"cfg","trans","reframe","feat","switch","level","round"};
 
 typedef struct { ccfg k; int nframes; int sig; int maxbytes; /* 0: ample */ int lose_last; /* replace the segment's last packet by a loss */ } sseg;
 typedef struct { int fs, ch, app; uint32_t seed; int nseg; sseg seg[12];
                  int fec, dtx, cbr, cvbr, complexity, pred_dis, phinv_dis, lsb;
-                 int lv_on; long lv_t0,lv_t1; float lv_g0,lv_gmid,lv_g1; /* gain g0 before sample t0, gmid in [t0,t1), g1 from t1 on */ int lv_trunc; } sdesc;
+                 int lv_on; long lv_t0,lv_t1; float lv_g0,lv_gmid,lv_g1; /* gain g0 before sample t0, gmid in [t0,t1), g1 from t1 on */ int lv_trunc; int sigmod; /* 2-channel input only: 1 right := loud high-pass noise, 2 right := -left */ } sdesc;
 
 typedef struct { unsigned char fam, cfg, stereo, ridx, sig, a, b, variant; unsigned short ms; } sitem;
 
@@ -77,7 +83,7 @@ static const char *triple_name(int t){ static const char *const n[9]={"silk-nb",
 
 /* ---- run the frozen encoder over a description ---- */
 static void s_encode(corpus *c,const char *name,const sdesc *d){
-   int err,s,i,sid,cursig=-1; long pos=0; OpusEncoder *e=ref_opus_encoder_create(d->fs,d->ch,d->app,&err); siggen g; short *pcm; unsigned char out[4000];
+   int err,s,i,sid,cursig=-1,smp=0; uint32_t smr=d->seed*2654435761u+99u; long pos=0; OpusEncoder *e=ref_opus_encoder_create(d->fs,d->ch,d->app,&err); siggen g; short *pcm; unsigned char out[4000];
    if(!e){ fprintf(stderr,"streams: encoder_create failed %d\n",err); exit(2); }
    sid=corpus_new_stream(c,name,d->fs,d->ch);
    pcm=malloc(sizeof(short)*d->ch*(d->fs/8+8));
@@ -94,6 +100,7 @@ static void s_encode(corpus *c,const char *name,const sdesc *d){
       if (sg->sig!=cursig){ sig_init(&g,sg->sig,d->fs,d->ch,d->seed); cursig=sg->sig; }
       for(i=0;i<sg->nframes;i++){ int n; opus_uint32 rng=0;
          sig_gen(&g,pcm,fsz);
+         if (d->sigmod && d->ch==2){ int q; for(q=0;q<fsz;q++){ if(d->sigmod==1){ int x; smr=smr*1664525u+1013904223u; x=(int)((smr>>16)&0xFFFF)-32768; pcm[2*q+1]=(short)((x-smp)*3/8); smp=x; } else pcm[2*q+1]=(short)(pcm[2*q]==-32768?32767:-pcm[2*q]); } }
          if (d->lv_on){ int q,cc; for(q=0;q<fsz;q++){ long t=pos+q; float gn=t<d->lv_t0?d->lv_g0:(t<d->lv_t1?d->lv_gmid:d->lv_g1); if(gn!=1.0f) for(cc=0;cc<d->ch;cc++) pcm[q*d->ch+cc]=(short)lrintf(pcm[q*d->ch+cc]*gn); } }
          pos+=fsz;
          n=ref_opus_encode(e,pcm,fsz,out,sg->maxbytes?sg->maxbytes:(int)sizeof out);
@@ -135,7 +142,11 @@ static void s_reframe(corpus *out,const char *name,const corpus *in,int group,in
 }
 
 /* ---- signal classes of the grid ---- */
-static int grid_sig(int idx,int stereo){ static const int s[6]={SIG_SPEECH,SIG_MULTITONE,SIG_NOISE,SIG_SWEEP,SIG_CLICKS,SIG_STEREOPAN}; int v=s[idx%6]; if(v==SIG_STEREOPAN&&!stereo) v=SIG_BANDNOISE; return v; }
+static int grid_sig(int idx,int stereo){ static const int s[6]={SIG_SPEECH,SIG_MULTITONE,SIG_NOISE,SIG_SWEEP,SIG_CLICKS,SIG_STEREOPAN}; int v; if(idx==6) return SIG_MULTITONE; if(idx==7) return SIG_SWEEP; v=s[idx%6]; if(v==SIG_STEREOPAN&&!stereo) v=SIG_BANDNOISE; return v; }
+static int grid_sigmod(int idx){ return idx==6?1:idx==7?2:0; }
+static const char *grid_signame(int idx,int stereo){ return idx==6?"multitone|right=hp-noise":idx==7?"sweep|right=-left":sig_name[grid_sig(idx,stereo)]; }
+static const char *const prof_name[4]={""," cx0"," cx3"," cx0-cbr-low"};
+static void prof_apply(sdesc *d,int prof){ if(prof==1||prof==3) d->complexity=0; else if(prof==2) d->complexity=3; if(prof==3) d->cbr=1; }
 
 /* re-framing variants */
 enum { RV_MERGE2=0, RV_MERGE3, RV_MERGEMAX, RV_PAD, RV_CBR, RV_CBR_MERGE2, RV_CBR_MERGE3, RV_CBR_MAXPAD, RV_N };
@@ -158,6 +169,7 @@ enum { SW_TO_CELT=0, SW_TO_CELT_CAP, SW_FROM_CELT, SW_FROM_CELT_CAP, SW_DTX_TO_C
 static int sw_cap(int dur_x10,int ch){ int fr=10000/dur_x10, base=40*ch+20, lim=4+8*ch, m; for(m=400;m>8;m--){ int avail=m*8-2*base; if((avail*240/(240+48000/fr)+base)/8<=lim) break; } return m-2; }
 static int frames_for(int ms,int dur_x10){ int n=(ms*10+dur_x10-1)/dur_x10; return n<2?2:n; }
 
+static int round_triple(int i){ return 3+i%6+9*(i/6); }   /* the 12 hybrid / CELT-only triples */
 /* ---- LEVEL: probe pass + level schedule around the packet where the (mode,bandwidth,channels) triple changes ---- */
 static struct { int lv, met, K, prev_tr, new_tr, rate_switch; } LVI;   /* what the last item_make() observed (read by the harness for the evidence counters) */
 static int s_triple(int toc){ return (rfc_mode(toc)*5+rfc_bandwidth(toc))*2+rfc_channels(toc)-1; }
@@ -193,7 +205,8 @@ static void item_name(const sitem *it,char *nm,int n){
    ccfg k;
    switch(it->fam){
    case FAM_CFG: cfg_to_ccfg(it->cfg,&k); snprintf(nm,n,"cfg%02d %s r%d %s %dms",it->cfg,it->stereo?"stereo":"mono",it->ridx,sig_name[grid_sig(it->sig,it->stereo)],it->ms); break;
-   case FAM_TRANS: snprintf(nm,n,"trans %s -> %s dur%d %s %dms",triple_name(it->a),triple_name(it->b),it->variant,sig_name[grid_sig(it->sig,1)],it->ms); break;
+   case FAM_TRANS: snprintf(nm,n,"trans %s -> %s dur%d %s%s %dms",triple_name(it->a),triple_name(it->b),it->variant,grid_signame(it->sig,1),prof_name[it->ridx&3],it->ms); break;
+   case FAM_ROUND: snprintf(nm,n,"round %s -> %s -> back, %s ms, %s%s",triple_name(round_triple(it->a)),triple_name(round_triple(it->b)),it->variant?"10":"20",grid_signame(it->sig,1),prof_name[it->ridx&3]); break;
    case FAM_REFRAME: snprintf(nm,n,"reframe %s of cfg%02d %s r%d %s %dms",rv_name[it->variant],it->cfg,it->stereo?"stereo":"mono",it->ridx,sig_name[grid_sig(it->sig,it->stereo)],it->ms); break;
    case FAM_SWITCH: { static const char *const vn[SW_N]={"A->celt","A->celt capped","celt->A","celt->A capped","A,dtx->celt","A,loss->celt","celt,loss->A"}; static const char *const dn[4]={"2.5","5","10","20"};
       snprintf(nm,n,"switch %s: A=cfg%02d %s, celt %s ms, %s",vn[it->variant],it->a,it->stereo?"stereo":"mono",dn[it->b],sig_name[grid_sig(it->sig,it->stereo)]); } break;
@@ -242,7 +255,17 @@ static void item_make(const sitem *it0,corpus *c){
       triple_to_ccfg(it->a,da,&d.seg[0].k); triple_to_ccfg(it->b,db,&d.seg[1].k);
       d.seg[0].nframes=frames_for(it->ms/2,da); d.seg[1].nframes=frames_for(it->ms/2,db); d.seg[0].sig=d.seg[1].sig=grid_sig(it->sig,1);
       if (it->variant==5){ d.seg[0].nframes=15; d.seg[1].nframes=frames_for(it->ms-300,db); }
+      d.sigmod=grid_sigmod(it->sig); prof_apply(&d,it->ridx&3);
+      if ((it->ridx&3)==3){ d.seg[0].k.bitrate=cfg_bitrate(d.seg[0].k.mode,d.seg[0].k.bw,d.seg[0].k.ch_force,0); d.seg[1].k.bitrate=cfg_bitrate(d.seg[1].k.mode,d.seg[1].k.bw,d.seg[1].k.ch_force,0); }
       lv_encode(c,nm,&d,lv);
+   } else if (it->fam==FAM_ROUND){
+      int du=it->variant?100:200, nf=it->ms*10/du/3, low=(it->ridx&3)==3; if(nf<4) nf=4;
+      d.ch=2; d.app=OPUS_APPLICATION_AUDIO; d.nseg=3;
+      triple_to_ccfg(round_triple(it->a),du,&d.seg[0].k); triple_to_ccfg(round_triple(it->b),du,&d.seg[1].k);
+      if (low){ d.seg[0].k.bitrate=cfg_bitrate(d.seg[0].k.mode,d.seg[0].k.bw,d.seg[0].k.ch_force,0); d.seg[1].k.bitrate=cfg_bitrate(d.seg[1].k.mode,d.seg[1].k.bw,d.seg[1].k.ch_force,0); }
+      d.seg[0].nframes=d.seg[1].nframes=nf; d.seg[0].sig=d.seg[1].sig=grid_sig(it->sig,1); d.seg[2]=d.seg[0];
+      d.sigmod=grid_sigmod(it->sig); prof_apply(&d,it->ridx&3);
+      s_encode(c,nm,&d);
    } else if (it->fam==FAM_SWITCH){
       static const int cd[4]={25,50,100,200}, cbw[4]={BWN,BWW,BWS,BWF};
       int v=it->variant, durB=cd[it->b], sg=grid_sig(it->sig,it->stereo), nA,nB,to_celt=(v==SW_TO_CELT||v==SW_TO_CELT_CAP||v==SW_DTX_TO_CELT||v==SW_LOSS_TO_CELT), n=0;
@@ -325,7 +348,7 @@ static void item_make(const sitem *it0,corpus *c){
  *           thorough: every kind x all 24 points
  * both    : SWITCH 16 SILK/hybrid configs x 4 CELT durations x {mono,stereo} x 7 variants (quick 568 streams, speech-like; thorough also multitone)
  */
-typedef struct { int cfg_rates, cfg_sigs, cfg_ms, trans_scheds, trans_sigs, trans_ms, ref_rates, ref_ms, feat_sigs, feat_ms, silkbw_ms, switch_sigs, level_full; } grid_t;
+typedef struct { int cfg_rates, cfg_sigs, cfg_ms, trans_scheds, trans_sigs, trans_ms, ref_rates, ref_ms, feat_sigs, feat_ms, silkbw_ms, switch_sigs, level_full, round_full; } grid_t;
 static sitem *ITEMS; static int NITEMS;
 static void items_add(const sitem *it){ static int cap; if(NITEMS==cap){ cap=cap?cap*2:1024; ITEMS=realloc(ITEMS,cap*sizeof(sitem)); } ITEMS[NITEMS++]=*it; }
 static void items_build(const grid_t *G){
@@ -352,6 +375,14 @@ static void items_build(const grid_t *G){
       if (v==SW_TO_CELT_CAP && b<2) continue;                                   /* below 10 ms there is never redundancy: same stream as SW_TO_CELT */
       if ((v==SW_DTX_TO_CELT||v==SW_LOSS_TO_CELT||v==SW_LOSS_FROM_CELT) && k.dur_x10!=200) continue;
       memset(&it,0,sizeof it); it.fam=FAM_SWITCH; it.a=a; it.b=b; it.variant=v; it.stereo=st; it.sig=s; it.ms=0; items_add(&it); }
+   /* ROUND: all 132 ordered pairs of the 12 hybrid / CELT-only triples, A->B->A. quick: {cx0, cx3} x right=hp-noise + cx0-cbr-low x right=-left,
+      20 ms; thorough: 3 profiles x 2 signals x {20,10} ms. TRANS again with the profiles: quick cx0 x right=hp-noise; thorough 3 profiles x 2 signals */
+   for(a=0;a<12;a++) for(b=0;b<12;b++) if(a!=b) for(v=0;v<(G->round_full?2:1);v++) for(r=1;r<=3;r++) for(s=6;s<=7;s++){
+      if (!G->round_full && !((r<3&&s==6)||(r==3&&s==7))) continue;
+      memset(&it,0,sizeof it); it.fam=FAM_ROUND; it.a=a; it.b=b; it.variant=v; it.ridx=r; it.sig=s; it.stereo=1; it.ms=G->round_full?480:360; items_add(&it); }
+   for(a=0;a<NTRIPLE;a++) for(b=0;b<NTRIPLE;b++) if(a!=b) for(r=1;r<=3;r++) for(s=6;s<=7;s++){
+      if (!G->round_full && !(r==1&&s==6)) continue;
+      memset(&it,0,sizeof it); it.fam=FAM_TRANS; it.a=a; it.b=b; it.variant=0; it.ridx=r; it.sig=s; it.stereo=1; it.ms=G->trans_ms; items_add(&it); }
    /* LEVEL: lv = 1 + schedule*6 + offset index (schedules: 0 loud->-30 dB, 1 loud->-50 dB, 2 -50 dB->loud, 3 loud->30 ms silence->loud;
       offsets -25,-15,-5,+5,+15,+25 ms). thorough: all 24 points for every kind; quick: the points listed per kind class. Signal: multitone. */
    { static const unsigned char q_trans[5]={1+0*6+0,1+1*6+1,1+1*6+3,1+2*6+1,1+3*6+1}, q_switch[2]={1+1*6+1,1+2*6+1}, q_own[4]={1+1*6+1,1+1*6+0,1+2*6+1,1+3*6+1}; int p,np;
